@@ -28,7 +28,8 @@ from vlib.front import unparse, dotted, const_value, AnchorMissing
 from vlib.shape import Shape, Space, Ix, Q, D, BoolT, StrT, NoneT, SizeOf, UNK, is_unk, Arr, Rec, Tup, ListT, B
 from obligations.shape_tables import (model_attrs, COMMON_SIGS, M, TR, Spike, Chan, Samp, Loc, RAW, Tmpl)
 
-FLOOR = 17
+FLOOR = 11          # decided obligations below this = the analysis lost its footing (exit 2); clean tree: 30
+RULES = ('C03.A1', 'C03.A2', 'C03.P1', 'C03.S1', 'C03.S2', 'C03.Y1', 'C03.Y2', 'C03.Y3', 'C03.Y4')          # every obligation group must report (holds / violated / undecided): a group that vanishes silently is an analysis error
 EXPLANATION = ('sym walk of _extract_waveform over all sign cases of the window bounds (slice bounds and padding compared as normal forms with '
                'the window [s - n//2, s - n//2 + n)); structural dtype / conversion rules for the three dtype hazards; shape engine over the '
                'store lookup and the subset export; order / mask-sharing rules for the chunked extraction and the .npy writer')
@@ -228,6 +229,162 @@ def tri(ctx, rule, fi, node, good, bad, ok_msg, bad_msg, und_msg):
         ctx.undecided(rule, fi, und_msg, node if not isinstance(node, str) else None)
 
 
+def _window_sources(ctx, fi, il, tr_, nsw_, i0_, i1_):
+    """Where the window of a spike is read from. Reading it from the whole recording at the spike sample is the reference. Reading it from a chunk-local array
+    `traces[a:b]` at `s - a` is the same window only when [s - n//2, s - n//2 + n) lies inside [a, b): this is DERIVED from the guard under which the
+    chunk-local source is chosen (linear forms over s, a, b, n, n//2; the guard's comparisons are the assumptions). Not derivable on exact forms = violated:
+    the rows outside the chunk are zero-padded although the recording has data there."""
+    if not (isinstance(il.target, ast.Tuple) and len(il.target.elts) == 2 and all(isinstance(x, ast.Name) for x in il.target.elts)):
+        return
+    s_name = il.target.elts[1].id
+    calls = [c for c in ast.walk(il) if isinstance(c, ast.Call) and dotted(c.func) == '_extract_waveform' and len(c.args) >= 2]
+    if len(calls) != 1:
+        return
+    c0 = calls[0]
+    body_defs = {}
+
+    def lin(e, depth=0):
+        if e is None or depth > 8:
+            return None
+        c = const_value(e)
+        if isinstance(c, int) and not isinstance(c, bool):
+            return Lin.const(c)
+        if isinstance(e, ast.Name):
+            if e.id in (s_name, i0_, i1_, nsw_):
+                return Lin.atom(('v', e.id))
+            d_ = body_defs.get(e.id)
+            if d_ is not None and len(d_) == 1:
+                return lin(d_[0], depth + 1)
+            x = fi.expand(e)
+            if not (isinstance(x, ast.Name) and x.id == e.id):
+                return lin(x, depth + 1)
+            return Lin.atom(('v', e.id))
+        if isinstance(e, ast.Call) and dotted(e.func) in ('int', 'np.int64', 'np.int32', 'np.intp') and len(e.args) == 1:
+            return lin(e.args[0], depth + 1)
+        if isinstance(e, ast.UnaryOp) and isinstance(e.op, ast.USub):
+            v = lin(e.operand, depth + 1)
+            return None if v is None else -v
+        if isinstance(e, ast.BinOp) and isinstance(e.op, (ast.Add, ast.Sub)):
+            l, r = lin(e.left, depth + 1), lin(e.right, depth + 1)
+            return None if l is None or r is None else (l + r if isinstance(e.op, ast.Add) else l - r)
+        if isinstance(e, ast.BinOp) and isinstance(e.op, ast.Mult):
+            l, r = lin(e.left, depth + 1), lin(e.right, depth + 1)
+            if l is not None and r is not None and l.is_const():
+                return r.scale(l.cval())
+            if l is not None and r is not None and r.is_const():
+                return l.scale(r.cval())
+            return None
+        if isinstance(e, ast.BinOp) and isinstance(e.op, ast.FloorDiv):
+            l, r = lin(e.left, depth + 1), lin(e.right, depth + 1)
+            if l is not None and r is not None and r.is_const() and r.cval() >= 1:
+                return Lin.atom(('fdiv', l, r))
+            return None
+        return None
+
+    # plain single assignments of the loop body (`s = int(s)` rebinding the loop variable is the sample itself)
+    for st in il.body:
+        if isinstance(st, ast.Assign) and len(st.targets) == 1 and isinstance(st.targets[0], ast.Name):
+            if st.targets[0].id == s_name and Pat().any(['int(%s)' % s_name, 'np.int64(%s)' % s_name], st.value):
+                continue
+            body_defs.setdefault(st.targets[0].id, []).append(st.value)
+
+    def assumptions(test):
+        pos, nonneg = [], []
+        for c in q.conjuncts(test):
+            if not isinstance(c, ast.Compare):
+                continue
+            terms = [c.left] + list(c.comparators)
+            for (l, op, r) in zip(terms[:-1], c.ops, terms[1:]):
+                a, b = lin(l), lin(r)
+                if a is None or b is None:
+                    continue
+                if isinstance(op, ast.LtE):
+                    nonneg.append(b - a)
+                elif isinstance(op, ast.Lt):
+                    nonneg.append(b - a - Lin.const(1))
+                elif isinstance(op, ast.GtE):
+                    nonneg.append(a - b)
+                elif isinstance(op, ast.Gt):
+                    nonneg.append(a - b - Lin.const(1))
+        return pos, nonneg
+
+    # alternatives: (guard test or None, source expression, sample expression)
+    alts = []
+    a0, a1 = c0.args[0], c0.args[1]
+    chosen = None
+    if isinstance(a0, ast.Name) and isinstance(a1, ast.Name):
+        for st in il.body:
+            if isinstance(st, ast.If) and st.orelse:
+                def pick(block):
+                    got = {}
+                    for x in block:
+                        if isinstance(x, ast.Assign) and len(x.targets) == 1:
+                            t_ = x.targets[0]
+                            if isinstance(t_, ast.Tuple) and isinstance(x.value, ast.Tuple) and len(t_.elts) == len(x.value.elts):
+                                for tt, vv in zip(t_.elts, x.value.elts):
+                                    if isinstance(tt, ast.Name):
+                                        got[tt.id] = vv
+                            elif isinstance(t_, ast.Name):
+                                got[t_.id] = x.value
+                    return got
+                gb, go = pick(st.body), pick(st.orelse)
+                if a0.id in gb and a1.id in gb and a0.id in go and a1.id in go:
+                    chosen = st
+                    alts = [(st.test, gb[a0.id], gb[a1.id]), (None, go[a0.id], go[a1.id])]
+    if chosen is None:
+        guards = [i_.test for i_, br in q.enclosing_ifs(fi, c0) if br == 'body' and q.contains(il, i_)]
+        alts = [(guards[0] if guards else None, a0, a1)]
+    S_ = Lin.atom(('v', s_name))
+    N_ = Lin.atom(('v', nsw_))
+    half = Lin.atom(('fdiv', N_, Lin.const(2)))
+    for test, src_e, t_e in alts:
+        src = src_e
+        if isinstance(src, ast.Name) and src.id in body_defs and len(body_defs[src.id]) == 1:
+            src = body_defs[src.id][0]
+        src = fi.expand(src) if isinstance(src, ast.Name) else src
+        tl = lin(t_e)
+        if Pat().m(tr_, src):
+            if tl is not None and tl == S_:
+                ctx.holds('C03.S2', fi, 'the window is read from the whole recording at the spike sample', src_e)
+            elif tl is not None and set(tl.atoms()) <= {('v', s_name), ('v', i0_), ('v', i1_), ('v', nsw_)}:
+                ctx.violated('C03.S2', fi, c0, 'the window is read from the whole recording at `%s`, not at the spike sample' % unparse(t_e))
+            else:
+                ctx.undecided('C03.S2', fi, 'sample `%s` passed with the whole recording not recognised' % unparse(t_e), c0)
+            continue
+        if isinstance(src, ast.Subscript) and Pat().m(tr_, src.value) and isinstance(src.slice, ast.Slice) and src.slice.step is None:
+            a = lin(src.slice.lower) if src.slice.lower is not None else Lin.const(0)
+            b = lin(src.slice.upper)
+            if a is None or b is None or tl is None:
+                ctx.undecided('C03.S2', fi, 'bounds of the chunk-local source `%s` not recognised' % unparse(src), c0)
+                continue
+            if not (tl + a == S_):
+                if set((tl + a).atoms()) <= {('v', s_name), ('v', i0_), ('v', i1_), ('v', nsw_)}:
+                    ctx.violated('C03.S2', fi, c0, 'the window is read from `%s` at `%s`: that is sample %s of the recording, not the spike sample' % (unparse(src), unparse(t_e), tl + a))
+                else:
+                    ctx.undecided('C03.S2', fi, 'sample `%s` in the chunk-local source not recognised' % unparse(t_e), c0)
+                continue
+            SI = SymInterp(ctx.repo)
+            pos, nonneg = assumptions(test) if test is not None else ([], [])
+            SI.pos = [N_] + pos
+            SI.nonneg = nonneg + [b - a]
+            lo = S_ - half - a                        # first row of the window, relative to the chunk start: must be >= 0
+            hi = b - (S_ - half + N_)                 # rows of the chunk after the window: must be >= 0
+            ok_lo = SI.sign(lo) in ('+', '>=0', '0')
+            ok_hi = SI.sign(hi) in ('+', '>=0', '0')
+            exact = all(set(x.atoms()) <= {('v', s_name), ('v', i0_), ('v', i1_), ('v', nsw_), ('fdiv', N_, Lin.const(2))} for x in [lo, hi] + nonneg)
+            if ok_lo and ok_hi:
+                ctx.holds('C03.S2', fi, 'the chunk-local source is used only when the whole window [s - n//2, s - n//2 + n) lies inside the chunk (derived from the guard)', chosen.test if chosen is not None else c0)
+            elif exact:
+                which = 'starts %s rows before the chunk' % (-lo) if not ok_lo else 'ends after the chunk: %s rows of the chunk after the window is not >= 0 under the guard `%s`' % (hi, unparse(test) if test is not None else 'none')
+                ctx.violated('C03.S2', fi, chosen.test if chosen is not None else c0, 'the window of a spike is read from the chunk-local array `%s` although it can reach outside the chunk (%s): '
+                             'the rows outside are zero-padded while the recording has data there' % (unparse(src), which))
+            else:
+                ctx.undecided('C03.S2', fi, 'containment of the window in the chunk-local source could not be derived from the guard', c0)
+            continue
+        if chosen is not None or not Pat().m(tr_, fi.expand(a0)):
+            ctx.undecided('C03.S2', fi, 'source of the window `%s` not recognised' % unparse(src_e), c0)
+
+
 def s2_iter(ctx):
     repo = ctx.repo
     fi = repo.func(TR, 'iter_waveforms')
@@ -294,6 +451,8 @@ def s2_iter(ctx):
                 'spike i of the chunk: window from the whole recording at its sample on its own channel row, stored at position i',
                 'the per-spike extraction does not pair sample i, channel row i and output row i on the whole recording (`%s = %s`, channel row `%s`)' %
                 (unparse(st[0].targets[0]), unparse(c0)[:80], unparse(ch_x) if ch_x is not None else '?'), 'per-spike extraction not in a recognised form')
+    if inner and P.name('V_sc') is not None:
+        ctx.part('C03.S2', _window_sources, fi, inner[0], tr_, nsw_, P.name('V_i0'), P.name('V_i1'))
     z = [c for c in ast.walk(lp[0]) if isinstance(c, ast.Call) and dotted(c.func) == 'np.zeros']
     if not z:
         ctx.undecided('C03.S2', fi, 'allocation of the block of a chunk not recognised')
